@@ -40,7 +40,7 @@ STYLES = ['google', 'freeform', 'auto']
 def required_cells(tier):
     return ['style:google', 'style:freeform', 'style:auto', 'feature:async', 'feature:nested-func',
             'feature:class-in-func', 'feature:method:setter', 'feature:method:deleter', 'feature:method:nestedcls',
-            'feature:top:main', 'feature:module-docstring', 'feature:top:adeco', 'feature:top:ctxmgr', 'feature:top:handler', 'feature:top:matcharm', 'feature:top:tryelse', 'feature:top:forbody', 'feature:method:setter_stacked', 'feature:method:getter_again', 'feature:top:notmain', 'feature:method:ctxmethod', 'tree:missing-init', 'tree:ok',
+            'feature:top:main', 'feature:module-docstring', 'feature:top:adeco', 'feature:top:ctxmgr', 'feature:top:handler', 'feature:top:matcharm', 'feature:top:tryelse', 'feature:top:forbody', 'feature:method:setter_stacked', 'feature:method:getter_again', 'feature:top:notmain', 'feature:method:ctxmethod', 'tree:missing-init', 'tree:ok', 'history:file-edited-then-collected-again',
             'cli-list', 'calldefs']
 
 
@@ -119,6 +119,30 @@ def check_module(ctx, idx, seed):
                 ctx.cell('calldefs')
         for f in spec.features:
             ctx.cell('feature:' + f)
+        if idx % 3 == 0:
+            # history: the file is edited and collected again in the same process (an editor + watch loop, a test
+            # session over a changing tree): the second collection must describe the file as it is now
+            spec2 = gm.ModuleGen(random.Random(seed ^ 0x5bd1e995), idx + 500000).generate()
+            with open(path, 'w') as f:
+                f.write(spec2.src)
+            case2 = dict(case, kind='module-edited-in-place')
+            ok2 = True
+            for style in STYLES:
+                ctx.evaluation()
+                try:
+                    exs, wl = collect(path, style)
+                except Exception as ex:
+                    ctx.violation('collect-raised', 'parse_doctestables raised %r on the edited file' % (ex,), case2)
+                    ok2 = False
+                    continue
+                ctx.event('collections_observed')
+                if not compare(ctx, spec2, style, exs, case2, what='parse_doctestables after the file at this path was '
+                               'rewritten (first version collected earlier in the same process)'):
+                    ok2 = False
+            if ok2:
+                ctx.cell('history:file-edited-then-collected-again')
+            with open(path, 'w') as f:
+                f.write(spec.src)
         if ctx.shard == 0:
             ctx.sample({'module_source': spec.src[:1500], 'inventory': {k: v.markers for k, v in spec.inventory.items()},
                         'must_not_collect': spec.forbidden}, limit=1)
